@@ -45,10 +45,16 @@ def inject(r, nodes, nfaults=1, want_kind=None):
             key = p.key if p is not None else None
             if (id(node), key, kind) in used or (id(node), "obj") in used and kind in ("unknown-keyword", "missing-required"):
                 continue
+            req = vocab.required(node.type)
+            if (kind == "missing-required" and any((id(node), rk) in used for rk in req)) or (key in req and (id(node), "req-removed") in used):
+                continue  # never combine "required keyword removed" with a fault on that same keyword
             f = _apply(r, node, kind, p)
             if f is None:
                 continue
             used.add((id(node), key, kind))
+            used.add((id(node), key))
+            if kind == "missing-required":
+                used.add((id(node), "req-removed"))
             if kind in ("unknown-keyword", "missing-required"):
                 used.add((id(node), "obj"))
             faults.append(f)
